@@ -40,7 +40,8 @@ def hexVal (c : UInt8) : Option Nat :=
 def plusSp (l : Bytes) : Bytes := l.map fun c => if c = cPlus then cSp else c
 
 /-- `MHD_str_pct_decode_in_place_lenient_` on a C string (no NUL inside):
-    the decoded bytes `str[0..w)`.  Broken escapes are copied as they are. -/
+    the decoded bytes `str[0..w)`.  A '%' that does not start a valid escape is copied as it is
+    and the characters after it are scanned again (they may start a valid escape). -/
 def pctDecode : Bytes → Bytes
   | [] => []
   | c :: rest =>
@@ -51,8 +52,9 @@ def pctDecode : Bytes → Bytes
       | d1 :: d2 :: r2 =>
         match hexVal d1, hexVal d2 with
         | some h, some l => UInt8.ofNat (h * 16 + l) :: pctDecode r2
-        | _, _ => c :: d1 :: d2 :: pctDecode r2
+        | _, _ => c :: pctDecode (d1 :: d2 :: r2)
     else c :: pctDecode rest
+termination_by l => l.length
 
 /-- `MHD_unescape_plus (s); MHD_http_unescape (s)` applied to the C string in an array -/
 def unescape (arr : Bytes) : Bytes := pctDecode (plusSp (cstr arr))
